@@ -172,6 +172,10 @@ class SymArray(_np.ndarray):
                 x = self[i]
                 if isinstance(x, Sym):
                     out[i] = x.__trunc__()
+                    if ENG.concretize_unique_ints and isinstance(out[i], Sym):
+                        v = out[i].unique_int()
+                        if v is not None:
+                            out[i] = v
                 elif isinstance(x, SymBool):
                     out[i] = x._num()
                 else:
